@@ -1559,6 +1559,17 @@ func (c *Conn) readStream(fr *FrameHeader, r *Ctx) (err error) {
 		err = NewResetStreamError(
 			fr.Body().(*RstStream).Code(), "stream reset by the server")
 	case FrameData:
+		// A response starts with a header block (RFC 7540 8.1). DATA that
+		// comes before the block with the final :status has no response to
+		// belong to: without this check a stream that carried nothing but
+		// DATA and END_STREAM was handed to the caller as a success, with
+		// whatever status the Response happened to hold.
+		if r.hdrBlocks == 0 {
+			c.consumeConnWindow(fr.Len())
+
+			return NewResetStreamError(ProtocolError, "DATA before the response headers")
+		}
+
 		data := fr.Body().(*Data)
 		if data.Len() != 0 {
 			res.AppendBody(data.Data())
